@@ -24,8 +24,8 @@ func init() {
 		Rule: "E1 over token sequences: every sequence up to the length bound over the token alphabet, rendered blank-separated and concatenated, is given to expr.NewExprMachine / leafref.NewLeafrefMachine and to a three-valued reference (XPath 1.0 tokenizer+parser with the section 3.7 rules, core-subset classifier; RFC 6020 path-arg recogniser); " +
 			"plus every single-token deletion, replacement and insertion (whole alphabet, every position) on a corpus of well-formed expressions and on all path-arg derivations of bounded size. UNSPECIFIED strings are counted and skipped. Non-trivial = the reference decides MUST_ACCEPT, or MUST_REJECT for a reason other than a lexical error in the first token.",
 		Bound: map[string]string{
-			"quick":    "expr: all sequences of <=3 tokens over 63 tokens (2 renderings) and <=4 over a 24-token structural sub-alphabet; corpus x single-token mutations. leafref: all sequences of <=5 over 20 tokens; all path-arg derivations with <=2 steps, <=1 predicate x single-token mutations",
-			"thorough": "expr: <=4 tokens over 63 tokens, <=5 over the structural sub-alphabet; leafref: <=6 over 20 tokens, <=8 over the 9 structural tokens; derivations with <=3 steps, <=2 predicates x single-token mutations",
+			"quick":    "expr: all sequences of <=3 tokens over 63 tokens (2 renderings) and <=4 over a 24-token structural sub-alphabet; corpus x single-token mutations. leafref: all sequences of <=5 over 23 tokens; all path-arg derivations with <=2 steps, <=1 predicate x single-token mutations",
+			"thorough": "expr: <=4 tokens over 63 tokens, <=5 over the structural sub-alphabet; leafref: <=6 over 23 tokens, <=8 over the 9 structural tokens; derivations with <=3 steps, <=2 predicates x single-token mutations",
 		},
 		Assumptions: []string{
 			"prefix map knows only 'p'",
@@ -65,7 +65,7 @@ var exprCorpus = [][]string{
 	{"p", ":", "a"}, {"/", "p", ":", "a", "[", "p", ":", "a", "=", "1", "]", "/", "p", ":", "*"}, {"concat", "(", "p", ":", "a", ",", "'s'", ")"},
 }
 
-var lrTokens = []string{"/", "a", "..", "[", "]", "=", "current", "(", ")", "p:a", "b", "q:a", "xmla", "*", ".", "1", "'x'", "!=", "|", "\u00a0"}
+var lrTokens = []string{"/", "a", "..", "[", "]", "=", "current", "(", ")", "p:a", "b", "q:a", "xmla", "*", ".", "1", "'x'", "!=", "|", "\u00a0", "bé", "a·b", "é"}
 
 // leafref paths whose prefixed names are written as three tokens (mutation bases)
 var lrSplitCorpus = [][]string{{"..", "/", "p", ":", "a"}, {"/", "p", ":", "a", "/", "a", "[", "p", ":", "a", "=", "current", "(", ")", "/", "..", "/", "p", ":", "a", "]", "/", "a"}}
